@@ -519,6 +519,26 @@ def r9_quoted_form_is_read_back(ck):
                "specials %s, escapes %s" % (sorted(specials), escapes), pcs.where(),
                ok_detail="bytes %s do not stand for themselves; one-letter escapes %s; octal form: %s" % (
                    sorted(specials), "".join(chr(k) for k in sorted(escapes)), has_octal))
+    # the octal form is three digits for a byte: [0-3][0-7][0-7], read off the ranges the digit reader tests (when it tests ranges)
+    for fid in sorted(prog.fns):
+        if not fid.split("::")[-1].startswith("parse_oct") or "{closure" in fid:
+            continue
+        f_ = prog.fns[fid]
+        rngs = []
+        for blk in (f_.raw.get("promoted") or []):
+            for b_ in blk["blocks"]:
+                for st in b_["stmts"]:
+                    rv = st.get("rv") or {}
+                    if st.get("k") == "assign" and rv.get("k") == "agg" and (rv.get("adt") or "").startswith("core::ops::range::Range") and len(rv.get("ops", [])) == 2 and \
+                            all(o.get("k") == "const" and "int" in o for o in rv["ops"]):
+                        rngs.append((rv["ops"][0]["int"], rv["ops"][1]["int"] - (0 if "Inclusive" in rv["adt"] else 1)))
+                t_ = b_["term"]
+                if t_["k"] == "call" and (callee_of(t_).get("path") or "").endswith("RangeInclusive::<Idx>::new") and all(o.get("k") == "const" and "int" in o for o in t_["args"]):
+                    rngs.append((t_["args"][0]["int"], t_["args"][1]["int"]))
+        if len(rngs) == 3:
+            ck.require(sorted(rngs) == [(48, 51), (48, 55), (48, 55)], rule, "the octal escape is [0-3][0-7][0-7]",
+                       "%s accepts the digit ranges %s: some bytes written as \\ooo are not read back (the name falls back to its literal, "
+                       "quoted spelling)" % (fid.split("::")[-1], [(chr(a), chr(b)) for a, b in rngs]), f_.where(), ok_detail="ranges %s" % sorted(rngs))
     # the writers of quoted names: functions of the writer that format a path (C12-R8) - their quoted arm
     hosts = []
     for fn in sorted((f for f in prog.fns.values() if f.file == WRITER_FILE), key=lambda f: f.id):
